@@ -396,6 +396,12 @@ Proof.
   rewrite <- app_assoc. cbn [app]. apply (IH _ (r :: h)). apply hc_inv_step. exact H.
 Qed.
 
+Lemma hc_inv_run_cfg l : forall s h, hc_inv s h -> hc_inv (hc_run_cfg s l) (rev (map snd l) ++ h).
+Proof.
+  induction l as [|x t IH]; intros s h H; cbn [hc_run_cfg fold_left map rev app]; [exact H|].
+  rewrite <- app_assoc. cbn [app]. apply (IH _ (snd x :: h)). apply hc_inv_step. exact H.
+Qed.
+
 (* ---------- balancing policies ---------- *)
 
 Lemma rand_member r n : 0 < n -> rand_pick r n < n.
